@@ -48,7 +48,16 @@ def judge(case):
     msgs = []
     try:
         with quiet():
-            got = MSM(traj, n).get_one_tau_transition_matrix(tau_arg, noncorrelated_windows=noncorr)
+            model = MSM(traj, n)
+            if case.get("other_mode_first"):
+                # the same object is first asked for the other windowing mode (and another lag), as an analysis comparing
+                # both modes would do; what it answers afterwards must not depend on that
+                other = np.asarray(model.get_one_tau_transition_matrix(tau_arg, noncorrelated_windows=not noncorr).todense(), dtype=float)
+                want_other, _, _ = naive(traj, n, tau, not noncorr)
+                if other.shape != want_other.shape or not np.allclose(other, want_other, atol=1e-12, rtol=0):
+                    return [f"entry-wise mismatch in the {'non-overlapping' if not noncorr else 'sliding'} mode (first query on the object)"]
+                model.get_one_tau_transition_matrix(tau + 1, noncorrelated_windows=noncorr)
+            got = model.get_one_tau_transition_matrix(tau_arg, noncorrelated_windows=noncorr)
         got = np.asarray(got.todense(), dtype=float)
     except Exception as e:
         return [f"exception {type(e).__name__}: {e}"]
@@ -141,6 +150,8 @@ def classes_of(case):
     if len(set(x for x in case["traj"] if x is not None)) == 1:
         out.append("single_cell")
     out.append("tau_form=" + case.get("tau_form", "int"))
+    if case.get("other_mode_first"):
+        out.append("same_object_asked_for_other_mode_first")
     return out
 
 
@@ -156,7 +167,7 @@ def _exh_chunk(arg):
             for noncorr in (False, True):
                 idx += 1
                 case = {"traj": traj, "n_cells": n_cells, "tau": tau, "noncorr": noncorr,
-                        "tau_form": forms[idx % 4] if idx % 7 == 0 else "int"}
+                        "tau_form": forms[idx % 4] if idx % 7 == 0 else "int", "other_mode_first": idx % 3 == 0}
                 msgs = judge(case)
                 res.case(sample=case if idx % 997 == 1 else None, nontrivial=is_nontrivial(case), key=case,
                          classes=classes_of(case))
@@ -185,7 +196,7 @@ def _hyp_shard(arg):
                 traj = [x for x in traj for _ in range(rep)][:300]
             tau = draw(st.integers(1, 40))
             return {"traj": traj, "n_cells": n_cells, "tau": tau, "noncorr": draw(st.booleans()),
-                    "tau_form": draw(st.sampled_from(["int", "int", "np", "float", "str"]))}
+                    "tau_form": draw(st.sampled_from(["int", "int", "np", "float", "str"])), "other_mode_first": draw(st.booleans())}
 
         @given(cases())
         def test(case):
